@@ -53,6 +53,11 @@ TERMS = {
     "poly/deg2_C2": ((1, 2), lambda D: 2, 2, 2 / 3),
     "general": ((1, 2, 3), lambda D: 1, 2, 2 / 3),
     "general/half": ((1, 2), lambda D: 1, 2, 1 / 2),
+    "conv/single_cons/half": ((1, 2), lambda D: 1, 2, 1 / 2),
+    "conv/multi/half": ((2,), lambda D: D, 2, 1 / 2),
+    "gradnorm/fix/half": ((1, 2), lambda D: 1, 2, 1 / 2),
+    "vort2d/half": ((2,), lambda D: 1, 2, 1 / 2),
+    "proj3d/half": ((3,), lambda D: 3, 2, 1 / 2),
     "vort2d": ((2,), lambda D: 1, 2, 2 / 3),
     "vort2d/kolmogorov": ((2,), lambda D: 1, 2, 2 / 3),
     "proj3d": ((3,), lambda D: 3, 2, 2 / 3),
@@ -71,7 +76,7 @@ def units(tier, seed):
     us = []
     for name, (dims, ch, deg, frac) in TERMS.items():
         for D in dims:
-            Ns = b["N_cubic"][D] if deg == 3 else b["N"][D]
+            Ns = b["N_cubic"][D] if (deg == 3 or frac < 0.6) else b["N"][D]
             for N in Ns:
                 K = ref.band_limit(D, N, frac)
                 n = max(1, (2 * K + 1) ** D * ch(D))
@@ -94,11 +99,12 @@ def units(tier, seed):
 def build_term(ex, jnp, name, D, N, L, scale):
     DO = ex.spectral.build_derivative_operator(D, L, N)
     nf = ex.nonlin_fun
+    fr = 0.5 if name.endswith("/half") else 2 / 3
     if name.startswith("conv/"):
-        return nf.ConvectionNonlinearFun(D, N, derivative_operator=DO, dealiasing_fraction=2 / 3, scale=scale,
+        return nf.ConvectionNonlinearFun(D, N, derivative_operator=DO, dealiasing_fraction=fr, scale=scale,
                                          single_channel="single" in name, conservative="cons" in name)
     if name.startswith("gradnorm/"):
-        return nf.GradientNormNonlinearFun(D, N, derivative_operator=DO, dealiasing_fraction=2 / 3, zero_mode_fix="nofix" not in name, scale=scale)
+        return nf.GradientNormNonlinearFun(D, N, derivative_operator=DO, dealiasing_fraction=fr, zero_mode_fix="nofix" not in name, scale=scale)
     if name.startswith("poly/"):
         co = {"poly/deg2": (0.3, -0.7, scale), "poly/deg1": (0.4, scale), "poly/deg0": (scale,), "poly/deg3": (0.2, 0.5, -0.4, scale),
               "poly/deg2_C2": (0.0, 0.6, scale)}[name]
@@ -106,12 +112,12 @@ def build_term(ex, jnp, name, D, N, L, scale):
     if name.startswith("general"):
         return nf.GeneralNonlinearFun(D, N, derivative_operator=DO, dealiasing_fraction=0.5 if "half" in name else 2 / 3,
                                       scale_list=(0.4 * scale, -0.7, 0.5 * scale), zero_mode_fix=True)
-    if name == "vort2d":
-        return nf.VorticityConvection2d(D, N, convection_scale=scale, derivative_operator=DO, dealiasing_fraction=2 / 3)
+    if name in ("vort2d", "vort2d/half"):
+        return nf.VorticityConvection2d(D, N, convection_scale=scale, derivative_operator=DO, dealiasing_fraction=fr)
     if name == "vort2d/kolmogorov":
         return nf.VorticityConvection2dKolmogorov(D, N, convection_scale=scale, injection_mode=1, injection_scale=0.8, derivative_operator=DO, dealiasing_fraction=2 / 3)
-    if name == "proj3d":
-        return nf.ProjectedConvection3d(D, N, derivative_operator=DO, dealiasing_fraction=2 / 3)
+    if name in ("proj3d", "proj3d/half"):
+        return nf.ProjectedConvection3d(D, N, derivative_operator=DO, dealiasing_fraction=fr)
     if name == "proj3d/kolmogorov":
         return nf.ProjectedConvection3dKolmogorov(D, N, injection_mode=1, injection_scale=0.8, derivative_operator=DO, dealiasing_fraction=2 / 3)
     if name == "cahnhilliard":
@@ -267,83 +273,82 @@ def unit_term(u, rec):
         wshape = (N,) * (D - 1) + (N // 2 + 1,)
 
         W = ref.rfft_wavenumbers(D, N)
-        ALL, AMP, TAG = [], [], []
+        tern_n = 3 ** (N**D * C) if N**D * C <= 8 else 0
+        total = lattice_size(n, dd) + 1 + len(outb) * C + tern_n + 3
+        cs = min(u["chunk"], total)
+        sampled = [False]
 
-        def run_batch(states, tag, amps):
-            ALL.append(states)
-            AMP.append(np.asarray(amps, dtype=float))
-            TAG.extend([tag] * len(states))
+        def stream():
+            """(state, tag, amplitude) for every explored state; generated lazily so that large lattices never sit in memory"""
+            # 2. content outside the band (up to Nyquist) must be ignored: (v, v+e) for every out-of-band basis vector e in every channel
+            rng = ref.weights(max(n, 1), u["seed"] + 7)
+            v = np.zeros((C,) + (N,) * D)
+            for i in range(n):
+                v[i % C] += 0.6 * rng[i] * Bin[i // C] / max(1, nbs) ** 0.5
+            amp_v = float(np.sum(np.abs(0.6 * rng[:n])) / max(1, nbs) ** 0.5) + 1.0
+            yield v, "out_of_band_ignored", amp_v
+            for e in range(len(outb)):
+                for c in range(C):
+                    s_ = v.copy()
+                    s_[c] += 0.9 * Bout[e]
+                    yield s_, "out_of_band_ignored", amp_v
+            # 3. dense ternary lattice on the smallest grids (exhaustive 3^n), n <= 8 points total
+            if tern_n:
+                for pat in itertools.product((-1.0, 0.0, 1.0), repeat=N**D * C):
+                    yield np.array(pat).reshape((C,) + (N,) * D), "ternary", float(N**D * C)
+            # 4. full-band superposition states
+            wts = ref.weights(len(full_basis) * C, u["seed"])
+            Ball = ref.basis_fields(D, N, L, full_basis, X)
+            for s3 in range(3):
+                sup = np.zeros((C,) + (N,) * D)
+                for i in range(len(full_basis) * C):
+                    sup[i % C] += wts[(i * (s3 + 1)) % len(wts)] * Ball[i // C] / len(full_basis) ** 0.5
+                yield sup, "full_band_superposition", float(np.sum(np.abs(wts)) / len(full_basis) ** 0.5)
+            # 1. simplex lattice Lambda_d over the in-band vector basis (largest part, last)
+            for comb in lattice_states(n, dd):
+                st = np.zeros((C,) + (N,) * D)
+                for i in comb:
+                    st[i % C] += Bin[i // C]
+                if not sampled[0] and len(comb) == dd:
+                    rec.sample({"term": name, "D": D, "N": N, "K": K, "L": L, "lattice_point": [[list(inb[i // C][0]), inb[i // C][1], i % C] for i in comb]})
+                    sampled[0] = True
+                yield st, "lattice", float(len(comb))
 
-        def flush():
-            states = np.concatenate(ALL)
-            amps = np.concatenate(AMP)
-            tags = np.array(TAG)
-            B = states.shape[0]
-            cs = min(u["chunk"], B)
+        def process(states, tags, amps, a0):
+            nreal = states.shape[0]
+            st = states
+            if nreal < cs:  # pad so that the compiled batch shape is reused
+                st = np.concatenate([st, np.zeros((cs - nreal,) + st.shape[1:])])
             tol = 2e3 * EPS * S * np.maximum(amps, 1.0) ** dd * (N**D) * (N ** (D / 2))
-            for a0 in range(0, B, cs):
-                st = states[a0:a0 + cs]
-                nreal = st.shape[0]
-                if nreal < cs:  # pad so that the compiled batch shape is reused
-                    st = np.concatenate([st, np.zeros((cs - nreal,) + st.shape[1:])])
-                uh = np.fft.rfftn(st, axes=tuple(range(-D, 0)))
-                got = np.asarray(call(jnp.asarray(uh)))[:nreal]
-                want = fg.truncate_to_rfft(oracle(name, fg, fg.to_fine_hat(st[:nreal]), L, scale))
-                rec.count(states=nreal, transitions=nreal, traces=nreal)
-                if not rec.check(got.shape == want.shape, f"C03/{name}/shape", "output shape differs", D=D, N=N, got=list(got.shape), want=list(want.shape)):
-                    return
-                err = np.max(np.abs(got - want).reshape(nreal, -1), axis=1)
-                r = err / tol[a0:a0 + nreal]
-                r = np.where(np.isfinite(r), r, np.inf)
-                for tag in sorted(set(tags[a0:a0 + nreal])):
-                    sel = np.where(tags[a0:a0 + nreal] == tag)[0]
-                    i = int(sel[np.argmax(r[sel])])
-                    j = np.unravel_index(np.argmax(np.abs(got[i] - want[i])), got[i].shape)
-                    rec.close(r[i], 1.0, f"C03/{name}/{tag}", "nonlinear term differs from the alias-free projection of the documented operator",
-                              D=D, N=N, L=L, scale=scale, K=K, state=int(a0 + i), channel=int(j[0]), k=[int(W[d][j[1:]]) for d in range(D)],
-                              got=complex(got[i][j]), want=complex(want[i][j]), abs_err=float(err[i]))
-                rec.outcome_array(got[nreal // 2].ravel()[:: max(1, got[0].size // 8)])
+            uh = np.fft.rfftn(st, axes=tuple(range(-D, 0)))
+            got = np.asarray(call(jnp.asarray(uh)))[:nreal]
+            want = fg.truncate_to_rfft(oracle(name, fg, fg.to_fine_hat(st[:nreal]), L, scale))
+            rec.count(states=nreal, transitions=nreal, traces=nreal)
+            if not rec.check(got.shape == want.shape, f"C03/{name}/shape", "output shape differs", D=D, N=N, got=list(got.shape), want=list(want.shape)):
+                return
+            err = np.max(np.abs(got - want).reshape(nreal, -1), axis=1)
+            r = err / tol
+            r = np.where(np.isfinite(r), r, np.inf)
+            for tag in sorted(set(tags)):
+                sel = np.where(tags == tag)[0]
+                i = int(sel[np.argmax(r[sel])])
+                j = np.unravel_index(np.argmax(np.abs(got[i] - want[i])), got[i].shape)
+                rec.close(r[i], 1.0, f"C03/{name}/{tag}", "nonlinear term differs from the alias-free projection of the documented operator",
+                          D=D, N=N, L=L, scale=scale, K=K, state=int(a0 + i), channel=int(j[0]), k=[int(W[d][j[1:]]) for d in range(D)],
+                          got=complex(got[i][j]), want=complex(want[i][j]), abs_err=float(err[i]))
+            rec.outcome_array(got[nreal // 2].ravel()[:: max(1, got[0].size // 8)])
 
-        # 1. simplex lattice Lambda_d over the in-band vector basis
-        buf, amps = [], []
-        first = True
-        for comb in lattice_states(n, dd):
-            st = np.zeros((C,) + (N,) * D)
-            for i in comb:
-                st[i % C] += Bin[i // C]
-            buf.append(st)
-            amps.append(float(len(comb)))
-            if first and len(comb) == dd:
-                rec.sample({"term": name, "D": D, "N": N, "K": K, "L": L, "lattice_point": [[list(inb[i // C][0]), inb[i // C][1], i % C] for i in comb]})
-                first = False
-        run_batch(np.stack(buf), "lattice", np.array(amps))
-        # 2. content outside the band (up to Nyquist) must be ignored: (v, v+e) for every out-of-band basis vector e in every channel
-        rng = ref.weights(max(n, 1), u["seed"] + 7)
-        v = np.zeros((C,) + (N,) * D)
-        for i in range(n):
-            v[i % C] += 0.6 * rng[i] * Bin[i // C] / max(1, nbs) ** 0.5
-        pairs = [v]
-        for e in range(len(outb)):
-            for c in range(C):
-                s = v.copy()
-                s[c] += 0.9 * Bout[e]
-                pairs.append(s)
-        pa = np.stack(pairs)
-        amp_v = float(np.sum(np.abs(0.6 * rng[:n])) / max(1, nbs) ** 0.5) + 1.0
-        run_batch(pa, "out_of_band_ignored", np.full(len(pa), amp_v))
-        # 3. dense ternary lattice on the smallest grids (exhaustive 3^n), n <= 8 points total
-        if N**D * C <= 8:
-            tern = np.array(list(itertools.product((-1.0, 0.0, 1.0), repeat=N**D * C))).reshape((-1, C) + (N,) * D)
-            run_batch(tern, "ternary", np.full(len(tern), float(N**D * C)))
-        # 4. full-band superposition states
-        wts = ref.weights(len(full_basis) * C, u["seed"])
-        Ball = ref.basis_fields(D, N, L, full_basis, X)
-        sup = np.zeros((3, C) + (N,) * D)
-        for s3 in range(3):
-            for i in range(len(full_basis) * C):
-                sup[s3, i % C] += wts[(i * (s3 + 1)) % len(wts)] * Ball[i // C] / len(full_basis) ** 0.5
-        run_batch(sup, "full_band_superposition", np.full(3, float(np.sum(np.abs(wts)) / len(full_basis) ** 0.5)))
-        flush()
+        bs, bt, ba, a0 = [], [], [], 0
+        for st_, tag_, amp_ in stream():
+            bs.append(st_)
+            bt.append(tag_)
+            ba.append(amp_)
+            if len(bs) == cs:
+                process(np.stack(bs), np.array(bt), np.array(ba), a0)
+                a0 += len(bs)
+                bs, bt, ba = [], [], []
+        if bs:
+            process(np.stack(bs), np.array(bt), np.array(ba), a0)
         # 5. zero outside the band: implied by comparison with the oracle (which is zero there); record explicitly for one state
         rec.dim("lattice_points", lattice_size(n, dd))
 
